@@ -551,7 +551,7 @@ def resolve_const(db, t):
 
 
 MANIFEST = {
-    "technique": "static analysis: MIR control-flow rules (must-pass-through, reachability, dominators), def-use provenance of map keys, interval bounds, field-write rules",
+    "technique": "static analysis: MIR control-flow rules (must-pass-through, reachability, dominators), def-use provenance of map keys, data/control dependence of returned values on marker calls, interval bounds, field-write rules",
     "text": "Decides on every run structural necessary conditions of correct function recovery: the work list is closed under "
             "successors and manual edges and every dequeued address is recorded; every address-keyed lookup uses a key from "
             "that set; an instruction is inserted once per address and reused otherwise; stitching edges are created on both "
